@@ -10,6 +10,7 @@ package main
 // works from the property text (own label splitter, own address classifier).
 
 import (
+	"context"
 	"encoding/binary"
 	"errors"
 	"fmt"
@@ -25,6 +26,7 @@ import (
 	"github.com/semihalev/sdns/internal/dnsname"
 	"github.com/semihalev/sdns/internal/dnsutil"
 	"github.com/semihalev/sdns/internal/verif/vlib"
+	"github.com/semihalev/sdns/middleware"
 	"github.com/semihalev/sdns/middleware/cache"
 	"github.com/semihalev/sdns/middleware/resolver"
 )
@@ -342,9 +344,15 @@ func execXchg(f []string) vlib.Res {
 	} else if err == nil {
 		or = fail("xchg/no-error-no-identified-reply", "")
 	}
-	tags := ""
+	tags := "xchg-" + f[2]
 	if len(cands) >= 2 {
-		tags = "nt"
+		tags += ",nt"
+	}
+	if strings.ContainsAny(f[5], "tanfsx") && strings.Contains(f[5], "t:") {
+		tags += ",xchg-tc"
+	}
+	if len(cands) >= 6 {
+		tags += ",xchg-burst"
 	}
 	return vlib.Res{Impl: impl, Oracle: or, Tags: tags}
 }
@@ -769,6 +777,226 @@ func execRelay(f []string) vlib.Res {
 		tags = "nt"
 	}
 	return vlib.Res{Impl: "keep=" + listOrDash(kept), Oracle: or, Tags: tags}
+}
+
+// ---------------------------------------------------------------- searchAddrs
+
+func execNsAddr(f []string) vlib.Res {
+	msg := new(dns.Msg)
+	type ar struct {
+		typ string
+		ip  net.IP
+	}
+	var abs []ar
+	for _, e := range splitList(f[2], ";") {
+		p := strings.Split(e, "/")
+		a := ar{p[1], ipOf(p[2])}
+		abs = append(abs, a)
+		hdr := dns.RR_Header{Name: p[0], Class: dns.ClassINET, Ttl: 60}
+		switch a.typ {
+		case "A":
+			hdr.Rrtype = dns.TypeA
+			msg.Answer = append(msg.Answer, &dns.A{Hdr: hdr, A: a.ip})
+		case "AAAA":
+			hdr.Rrtype = dns.TypeAAAA
+			msg.Answer = append(msg.Answer, &dns.AAAA{Hdr: hdr, AAAA: a.ip})
+		default:
+			hdr.Rrtype = dns.TypeCNAME
+			msg.Answer = append(msg.Answer, &dns.CNAME{Hdr: hdr, Target: "t."})
+		}
+	}
+	addrs, found := resolver.VerifC07SearchAddrs(msg)
+	var hs []string
+	or := "ok"
+	for _, a := range addrs {
+		hs = append(hs, addrHex(a))
+		from := false
+		for _, x := range abs {
+			if ad, ok := netip.AddrFromSlice(x.ip); ok && ad.Unmap() == a && x.typ != "X" {
+				from = true
+			}
+		}
+		switch {
+		case oLoopback(a):
+			or = fail("nsaddr/took-loopback", "%s", a)
+		case ownIfaces[a.Unmap()]:
+			or = fail("nsaddr/took-local-interface", "%s", a)
+		case !from:
+			or = fail("nsaddr/address-not-in-any-record", "%s", a)
+		}
+	}
+	if found != (len(addrs) > 0) {
+		or = fail("nsaddr/found-flag-disagrees", "")
+	}
+	return vlib.Res{Impl: "addrs=" + listOrDash(hs), Oracle: or, Tags: "nt"}
+}
+
+// ---------------------------------------------------------------- the alias chase (Cache.additionalAnswer)
+
+type chRR struct {
+	owner  string
+	typ    uint16
+	target string
+}
+
+func parseChRRs(s, sep string) []chRR {
+	var out []chRR
+	for _, e := range splitList(s, sep) {
+		p := strings.Split(e, "/")
+		r := chRR{owner: p[0], typ: uint16(vlib.Atoi(p[1]))}
+		if len(p) > 2 {
+			r.target = p[2]
+		}
+		out = append(out, r)
+	}
+	return out
+}
+
+func (r chRR) rr(serial int) dns.RR {
+	hdr := dns.RR_Header{Name: r.owner, Rrtype: r.typ, Class: dns.ClassINET, Ttl: 60}
+	switch r.typ {
+	case dns.TypeCNAME:
+		return &dns.CNAME{Hdr: hdr, Target: r.target}
+	case dns.TypeA:
+		return &dns.A{Hdr: hdr, A: net.IPv4(198, 18, 9, byte(serial))}
+	case dns.TypeAAAA:
+		return &dns.AAAA{Hdr: hdr, AAAA: net.ParseIP("2001:db8::1")}
+	case dns.TypeTXT:
+		return &dns.TXT{Hdr: hdr, Txt: []string{"t"}}
+	case dns.TypeDNAME:
+		return &dns.DNAME{Hdr: hdr, Target: "t."}
+	}
+	return &dns.RFC3597{Hdr: hdr, Rdata: ""}
+}
+
+func chText(rr dns.RR) string {
+	h := rr.Header()
+	if c, ok := rr.(*dns.CNAME); ok {
+		return fmt.Sprintf("%s/%d/%s", h.Name, h.Rrtype, c.Target)
+	}
+	return fmt.Sprintf("%s/%d", h.Name, h.Rrtype)
+}
+
+type chaseSub struct {
+	kind   string // L limit, F fail, R response
+	rcode  int
+	ns     int
+	answer []chRR
+}
+
+type chaseQueryer struct {
+	script map[string]chaseSub
+	asked  []string
+	qtypes []uint16
+	rd     []bool
+}
+
+func (q *chaseQueryer) Query(ctx context.Context, req *dns.Msg) (*dns.Msg, error) {
+	name := req.Question[0].Name
+	q.asked = append(q.asked, name)
+	q.qtypes = append(q.qtypes, req.Question[0].Qtype)
+	q.rd = append(q.rd, req.RecursionDesired)
+	sub, ok := q.script[name]
+	if !ok || sub.kind == "F" {
+		return nil, errors.New("sub-pipeline failed")
+	}
+	if sub.kind == "L" {
+		return nil, middleware.ErrRecursionWorkLimit
+	}
+	m := new(dns.Msg)
+	m.SetReply(req)
+	m.Rcode = sub.rcode
+	for i, r := range sub.answer {
+		m.Answer = append(m.Answer, r.rr(100+i))
+	}
+	for i := 0; i < sub.ns; i++ {
+		m.Ns = append(m.Ns, &dns.NS{Hdr: dns.RR_Header{Name: "zone.", Rrtype: dns.TypeNS, Class: dns.ClassINET, Ttl: 60}, Ns: fmt.Sprintf("ns%d.zone.", i)})
+	}
+	return m, nil
+}
+
+// chase run <qname> <qtype> <rcode> <answer|-> <script|->
+// script: target=L | target=F | target=R<rcode>:<ns>:<rr+rr+...>   entries separated by ';'
+func execChase(f []string) vlib.Res {
+	qname := f[2]
+	qtype := uint16(vlib.Atoi(f[3]))
+	msg := new(dns.Msg)
+	msg.SetQuestion(qname, qtype)
+	msg.Response = true
+	msg.Rcode = vlib.Atoi(f[4])
+	orig := parseChRRs(f[5], ";")
+	for i, r := range orig {
+		msg.Answer = append(msg.Answer, r.rr(i))
+	}
+	qy := &chaseQueryer{script: map[string]chaseSub{}}
+	for _, e := range splitList(f[6], ";") {
+		name, val, _ := strings.Cut(e, "=")
+		sub := chaseSub{kind: val[:1]}
+		if sub.kind == "R" {
+			p := strings.SplitN(val[1:], ":", 3)
+			sub.rcode, sub.ns = vlib.Atoi(p[0]), vlib.Atoi(p[1])
+			if len(p) > 2 {
+				sub.answer = parseChRRs(p[2], "+")
+			}
+		}
+		if _, dup := qy.script[name]; !dup {
+			qy.script[name] = sub // the first entry for a target counts
+		}
+	}
+	out := cache.VerifC07AdditionalAnswer(context.Background(), qy, msg)
+	var an []string
+	for _, rr := range out.Answer {
+		an = append(an, chText(rr))
+	}
+	impl := fmt.Sprintf("rcode=%d an=%s asked=%s", out.Rcode, listOrDash(an), listOrDash(qy.asked))
+
+	// oracle: provenance of every answer record and of every sub-query
+	or := "ok"
+	have := map[string]bool{}
+	aliasTargets := map[string]bool{}
+	note := func(rs []chRR) {
+		for _, r := range rs {
+			if r.typ == dns.TypeCNAME {
+				have[fmt.Sprintf("%s/%d/%s", r.owner, r.typ, r.target)] = true
+				aliasTargets[r.target] = true
+			} else {
+				have[fmt.Sprintf("%s/%d", r.owner, r.typ)] = true
+			}
+		}
+	}
+	note(orig)
+	seen := map[string]bool{}
+	for i, t := range qy.asked {
+		switch {
+		case !aliasTargets[t]:
+			or = fail("chase/asked-a-name-that-is-no-alias-target", "%s", t)
+		case seen[t]:
+			or = fail("chase/asked-a-target-twice", "%s", t)
+		case t == qname:
+			or = fail("chase/asked-its-own-question", "%s", t)
+		case qy.qtypes[i] != qtype:
+			or = fail("chase/asked-another-type", "%d", qy.qtypes[i])
+		case !qy.rd[i]:
+			or = fail("chase/sub-query-without-rd", "%s", t)
+		}
+		seen[t] = true
+		if sub, ok := qy.script[t]; ok && sub.kind == "R" {
+			note(sub.answer)
+		}
+	}
+	if len(qy.asked) > 10 {
+		or = fail("chase/more-than-ten-sub-queries", "%d", len(qy.asked))
+	}
+	for _, a := range an {
+		if !have[a] {
+			or = fail("chase/answer-record-of-unknown-provenance", "%s", a)
+		}
+	}
+	tags := ""
+	if len(qy.asked) > 0 {
+		tags = fmt.Sprintf("nt,chase%d", len(qy.asked))
+	}
+	return vlib.Res{Impl: impl, Oracle: or, Tags: tags}
 }
 
 func execClr(f []string) vlib.Res {
